@@ -161,19 +161,27 @@ fn finish(ctx: &Ctx, prop: &props::Prop, seed: i64) -> i32 {
             continue;
         }
         // confirm by replaying twice outside the explorer
-        let mut reproduced = true;
         let mut supported = true;
-        for _ in 0..2 {
+        let mut hits = 0;
+        let mut tries = 0;
+        // two replays must both fail; if one does not (the violation depends on values we do not control, e.g. the
+        // order of two random counters), replay up to 8 times and report how often it reproduced
+        while tries < 8 {
             match util::on_big_stack(|| replay_case(&ctx.property, &v.family, &v.case)) {
                 None => {
                     supported = false;
                     break;
                 }
-                Some(Ok(_)) => reproduced = false,
-                Some(Err(_)) => {}
+                Some(Ok(_)) => {}
+                Some(Err(_)) => hits += 1,
+            }
+            tries += 1;
+            if tries == 2 && hits == 2 {
+                break;
             }
         }
-        if supported && !reproduced {
+        let flaky = supported && hits < tries;
+        if supported && hits == 0 {
             eprintln!(
                 "MACHINERY ERROR: violation in family {} did not reproduce on replay: {} case={}",
                 v.family, v.fail.msg, v.case
@@ -185,6 +193,7 @@ fn finish(ctx: &Ctx, prop: &props::Prop, seed: i64) -> i32 {
             "property": ctx.property, "family": v.family, "case": v.case,
             "signature": v.fail.sig, "message": v.fail.msg,
             "cases_with_this_signature": count,
+            "replays_reproduced": format!("{}/{}", hits, tries),
             "more_cases": cases.iter().skip(1).map(|c| c.case.clone()).collect::<Vec<_>>(),
             "tree_hash": env!("VERIF_REPO_HASH"),
         });
@@ -196,7 +205,11 @@ fn finish(ctx: &Ctx, prop: &props::Prop, seed: i64) -> i32 {
         );
         let path = format!("{}/replays/{}", verif_dir(), name);
         fs::write(&path, text).ok();
-        unlisted_groups.push((*count, v.clone(), path));
+        let mut v2 = v.clone();
+        if flaky {
+            v2.fail.msg = format!("[reproduced in {} of {} replays: depends on uncontrolled random values] {}", hits, tries, v2.fail.msg);
+        }
+        unlisted_groups.push((*count, v2, path));
     }
     for (id, (f, n, case)) in &known {
         println!(
